@@ -784,7 +784,7 @@ def bit_iterators(ix):
     """Iterator types of the crate that yield the squares of a mask: a struct with one field (a Bitboard or its u64) whose
     `next` pops the lowest set bit (`pops_bits`).  {type path: (field name, field type)}; the verdict per candidate type is in
     `bit_iterator_verdicts`."""
-    key = ("bit_iterators", id(ix))
+    key = ("bit_iterators", ix.uid)
     if key in _BIT_ITERS:
         return _BIT_ITERS[key]
     import re
@@ -810,7 +810,7 @@ def bit_iterators(ix):
         if why is None:
             out[m.group(1)] = (f["name"], f["ty"])
     _BIT_ITERS[key] = out
-    _BIT_ITERS[("verdicts", id(ix))] = verdicts
+    _BIT_ITERS[("verdicts", ix.uid)] = verdicts
     return out
 
 
@@ -873,7 +873,7 @@ def rule_bit_iteration(ctx):
     ix = ctx.ix
     # iterator types that hand out the squares of a mask one by one (`for s in mask.squares()`, `.squares().map(..)`)
     its = bit_iterators(ix)
-    for ty, (why, nb) in sorted(_BIT_ITERS.get(("verdicts", id(ix)), {}).items()):
+    for ty, (why, nb) in sorted(_BIT_ITERS.get(("verdicts", ix.uid), {}).items()):
         ctx.functions.add(nb.key)
         ctx.check(why is None, "bit-iterator:%s" % ty, "%s::next yields None exactly when its mask is empty and otherwise the square of the lowest set bit, clearing that bit once" % C.short(ty), nb.where(0),
                   bad_what="%s::next: %s; iterating a mask with it misses squares or repeats them" % (C.short(ty), why))
